@@ -18,6 +18,35 @@ from harness import common as C
 from harness import dfgen as G
 from harness import encoders as H
 
+# CLAUSES of the property (properties.jsonl C12), the oracle keys that judge them, the generator kinds that exercise them
+CLAUSES = [
+    # statement
+    "accepts the dataset's TensorFrame and any batch of it (whole, single row, empty, subsets; every index form) "
+    "-> keys raises:construct:*, raises:call:<batch kind>; kind=frame, batches all / empty / rows (list) / slice / "
+    "tensor (LongTensor) / mask (BoolTensor) / range",
+    "returns a finite tensor of shape [batch, total feature columns, channels] -> keys shape, non-finite "
+    "(known: inf-cell-non-finite-output); kind=frame, every batch",
+    "column names in the same order as the tensor's column axis -> keys names-set, names-vary, names-misaligned; "
+    "kind=frame, one perturbation per input column",
+    "mapper outputs lie inside the encoders' domain (category index, calendar value, embedding width, missing) -> "
+    "keys raises:call:*, raises:call:perturbed, na-strategy-mismatch (statistics wired to their own column); "
+    "kind=frame over every stype incl. text/image embedded, extreme dates, rare categories, constant columns",
+    "lazily configured encoders behave like eagerly constructed ones -> keys lazy-differs-from-eager, lazy-build, "
+    "lazy-rejection, inadmissible-strategy-accepted; kind=lazy (probe: all orders / None / re-assignments / "
+    "rejected configurations; encoder: every class)",
+    "refuse to run while incompletely specified -> keys lazy-use-before-complete, lazy-refuses-complete; kind=lazy, "
+    "a guarded use after every step (call; parameters / children / modules / to / eval via the correspondence)",
+    "unsupported stype/encoder pairings rejected at construction -> keys pairing-accepted, pairing-rejected, wiring; "
+    "kind=reject (child-stype keys, unsupported classes, stypes absent from the data)",
+    # quantifier
+    "all encoder classes admissible per stype x NA strategies or none x post-modules x channels x batch selections "
+    "-> gen_spec / gen_frame_case; sanity()",
+    # signature: case['how'] and encoder kw
+    "StypeWiseFeatureEncoder(...) positional vs keyword; fe(tf) vs fe.forward(tf); after .to('cpu') / .cpu(); an "
+    "encoder for a stype the data does not have; encoder keyword defaults (n_bins, out_size) and non-defaults "
+    "-> stats()['how'], sanity()",
+]
+
 PROP = "C12"
 HEADER = ("From Coq Require Import QArith String.\n"
           "Require Import PF.Gen.Tables PF.Model.LazyModule PF.Model.Encoders.")
@@ -97,7 +126,8 @@ def gen_spec(rng, st, has_missing_ts):
     na = rng.pick(H.NA_ADMISSIBLE[st])
     kw = {}
     if cls == "TimestampEncoder":
-        kw["out_size"] = rng.pick([2, 4])
+        if not rng.chance(0.2):
+            kw["out_size"] = rng.pick([2, 4])          # else the default (8)
         strategies = [x for x in H.NA_ADMISSIBLE[st] if x is not None]
         # na_strategy=None together with a missing timestamp is the documented limitation: low rate
         na = None if (not has_missing_ts and rng.chance(0.3)) or rng.chance(0.05) else rng.pick(strategies)
@@ -107,8 +137,8 @@ def gen_spec(rng, st, has_missing_ts):
             na = rng.pick([x for x in H.NA_ADMISSIBLE[st] if x is not None])
     if cls == "MultiCategoricalEmbeddingEncoder":
         kw["mode"] = rng.pick(["mean", "sum", "max"])
-    if cls == "LinearPeriodicEncoder":
-        kw["n_bins"] = rng.randint(1, 4)
+    if cls == "LinearPeriodicEncoder" and not rng.chance(0.2):
+        kw["n_bins"] = rng.randint(1, 4)               # else the default (16)
     return {"cls": cls, "na": na, "post": rng.pick(H.POSTS), "kw": kw}
 
 
@@ -132,12 +162,32 @@ def gen_frame_case(rng, tier):
     if rng.chance(0.3):
         a = rng.randint(0, n)
         batches.append({"t": "slice", "a": a, "b": rng.randint(a, n)})
+    extra = rng.pick(["tensor", "mask", "range", None])
+    if extra == "tensor":
+        batches.append({"t": "tensor", "idx": [rng.randrange(n) for _ in range(rng.randint(0, n + 1))]})
+    elif extra == "mask":
+        batches.append({"t": "mask", "m": [rng.chance(0.5) for _ in range(n)]})
+    elif extra == "range":
+        a = rng.randint(0, n)
+        batches.append({"t": "range", "a": a, "b": rng.randint(a, n)})
+    absent = [p for p in H.ADMISSIBLE if p not in parents]
+    how = {"ctor": rng.pick(["pos", "kw"]), "entry": rng.pick(["call", "call", "forward"]),
+           "move": rng.pick([None, None, "to", "cpu"]),
+           "extra_enc": rng.pick(absent) if absent and rng.chance(0.3) else None}
     f64 = not any(s["cls"] == "LinearBucketEncoder" for s in enc.values()) and not rng.chance(0.2)
-    return {"kind": "frame", "desc": desc, "enc": enc, "order": order, "channels": rng.randint(1, 4), "f64": f64,
-            "batches": batches, "seed": rng.randint(0, 10 ** 6)}
+    return {"kind": "frame", "how": how, "desc": desc, "enc": enc, "order": order, "channels": rng.randint(1, 4),
+            "f64": f64, "batches": batches, "seed": rng.randint(0, 10 ** 6)}
 
 
 PROBE_PARAMS = ["p0", "p1", "p2", "p3"]
+# the guarded entry points of nn/base.py: __call__, named_parameters, named_children, named_modules, _apply
+USES = ["call", "call", "parameters", "children", "modules", "to", "eval"]
+
+
+def use_probe(kind):
+    return {"call": lambda m: m(1), "parameters": lambda m: list(m.parameters()),
+            "children": lambda m: list(m.named_children()), "modules": lambda m: list(m.modules()),
+            "to": lambda m: m.to("cpu"), "eval": lambda m: m.eval()}[kind]
 
 
 def gen_ops(rng, keys, lazy, n_ops):
@@ -161,7 +211,8 @@ def gen_lazy_case(rng, tier):
         ops = gen_ops(rng, PROBE_PARAMS + ["other"], lazy, rng.randint(0, 8))
         used = [v for v in args if v is not None] + [v for k, v in ops if v is not None and k != "other"]
         bad = rng.pick(used) if used and rng.chance(0.3) else None
-        return {"kind": "lazy", "target": "probe", "lazy": lazy, "args": args, "ops": ops, "bad": bad}
+        return {"kind": "lazy", "target": "probe", "lazy": lazy, "args": args, "ops": ops, "bad": bad,
+                "use": rng.pick(USES)}
     # a real encoder class: the three lazy attributes in any order / interleaving
     cls = rng.pick(sorted(H.CLASSES))
     st = rng.pick(DOC_KEYS[cls][:1] if cls != "LinearModelEncoder" else ["numerical", "categorical"])
@@ -245,6 +296,12 @@ def select(tf, b):
         return tf[[]]
     if b["t"] == "rows":
         return tf[b["idx"]]
+    if b["t"] == "tensor":
+        return tf[torch.tensor(b["idx"], dtype=torch.long)]
+    if b["t"] == "mask":
+        return tf[torch.tensor(b["m"], dtype=torch.bool)]
+    if b["t"] == "range":
+        return tf[range(b["a"], b["b"])]
     return tf[b["a"]:b["b"]]
 
 
@@ -253,8 +310,10 @@ def batch_rows(b, n):
         return list(range(n))
     if b["t"] == "empty":
         return []
-    if b["t"] == "rows":
+    if b["t"] in ("rows", "tensor"):
         return list(b["idx"])
+    if b["t"] == "mask":
+        return [i for i, v in enumerate(b["m"]) if v]
     return list(range(n))[b["a"]:b["b"]]
 
 
@@ -387,9 +446,27 @@ def run_frame(case):
                                      eager=False)
             encs[st] = e
             taps[p] = tap
-        fe = E.StypeWiseFeatureEncoder(case["channels"], ds.col_stats, tf.col_names_dict, encs)
+        how = case.get("how") or {}
+        if how.get("extra_enc"):
+            # an encoder for a stype the data does not have: legal, never wired
+            xp = how["extra_enc"]
+            xe, _ = H.build_encoder({"cls": [c for c in H.ADMISSIBLE[xp] if c != "LinearModelEncoder"][0], "na": None,
+                                     "post": None, "kw": {}}, case["channels"], None, xp, eager=False)
+            encs[H.st_of(xp)] = xe
+        if how.get("ctor") == "kw":
+            fe = E.StypeWiseFeatureEncoder(out_channels=case["channels"], col_stats=ds.col_stats,
+                                           col_names_dict=tf.col_names_dict, stype_encoder_dict=encs)
+        else:
+            fe = E.StypeWiseFeatureEncoder(case["channels"], ds.col_stats, tf.col_names_dict, encs)
+        if how.get("move") == "to":
+            fe = fe.to("cpu")
+        elif how.get("move") == "cpu":
+            fe = fe.cpu()
+
         H.randomize(fe, case["seed"])
         fe.eval()
+        if how.get("entry") == "forward":
+            fe = fe.forward
     except Exception as ex:
         obs.update(exc=C.exc_name(ex), msg=str(ex)[:300], tb=C.fmt_exc())
         return obs
@@ -509,7 +586,7 @@ def lazy_obs(m, use, raised):
 def run_lazy(case):
     if case["target"] == "probe":
         cls = probe_class(case["lazy"], case.get("bad"))
-        use = lambda mod: mod(1)  # noqa: E731
+        use = use_probe(case.get("use", "call"))
         try:
             m = cls(*case["args"])
         except ValueError:
@@ -818,8 +895,9 @@ def oracle_lazy(case, obs):
                 return dict(key="lazy-build", what="the raising constructor called init_modules with "
                                                    f"{obs['fired']}", expected=[ref[0][1]], observed=obs["fired"])
             return None
+        only_call = case.get("use", "call") == "call"     # the property speaks of running the module
         for i, ((full, built, raised), o) in enumerate(zip(ref, obs["trace"])):
-            if o["use_ok"] != full or o["full"] != full:
+            if (only_call and o["use_ok"] != full) or o["full"] != full:
                 return dict(key="lazy-use-before-complete" if o["use_ok"] and not full else "lazy-refuses-complete",
                             what=f"after step {i}: module complete={full} but is_fully_specified={o['full']}, "
                                  f"a call {'succeeds' if o['use_ok'] else 'raises'}", expected=full, observed=o)
@@ -976,7 +1054,7 @@ def nontrivial_sig(case, obs):
 def stats(cases, obss):
     d = {"kinds": {}, "classes": {}, "na": {}, "batches": {}, "batch_errors": 0, "materialize_failed": 0,
          "columns_perturbed": 0, "columns_moved": 0, "lazy_targets": {}, "lazy_ops": 0, "reject_raised": 0,
-         "f64": 0, "total": 0}
+         "f64": 0, "total": 0, "how": {}, "kw_defaults": 0, "lazy_uses": {}}
     for c, o in zip(cases, obss):
         if c is None:
             continue
@@ -984,6 +1062,12 @@ def stats(cases, obss):
         d["kinds"][c["kind"]] = d["kinds"].get(c["kind"], 0) + 1
         if c["kind"] == "frame":
             d["f64"] += bool(c["f64"])
+            for k, v in (c.get("how") or {}).items():
+                v = bool(v) if k == "extra_enc" else v
+                d["how"][f"{k}={v}"] = d["how"].get(f"{k}={v}", 0) + 1
+            d["kw_defaults"] += any((v["cls"] == "LinearPeriodicEncoder" and "n_bins" not in v["kw"]) or
+                                    (v["cls"] == "TimestampEncoder" and "out_size" not in v["kw"])
+                                    for v in c["enc"].values())
             for k, v in c["enc"].items():
                 d["classes"][v["cls"]] = d["classes"].get(v["cls"], 0) + 1
                 d["na"][str(v["na"])] = d["na"].get(str(v["na"]), 0) + 1
@@ -998,6 +1082,8 @@ def stats(cases, obss):
                 d["columns_moved"] += bool(a.get("moved"))
         elif c["kind"] == "lazy":
             d["lazy_targets"][c["target"]] = d["lazy_targets"].get(c["target"], 0) + 1
+            if c["target"] == "probe":
+                d["lazy_uses"][c.get("use", "call")] = d["lazy_uses"].get(c.get("use", "call"), 0) + 1
             d["lazy_ops"] += len(c["ops"])
         else:
             d["reject_raised"] += bool(o.get("raised"))
@@ -1017,9 +1103,15 @@ def sanity(cases, obss):
         for cls in sorted(CLS_OF):
             if d["classes"].get(cls, 0) == 0:
                 probs.append(f"encoder class {cls} never assigned in a frame case")
-        for b in ("all", "empty", "rows"):
+        for b in ("all", "empty", "rows", "slice", "tensor", "mask", "range"):
             if d["batches"].get(b, 0) == 0:
                 probs.append(f"batch kind {b} never drawn")
+        for hv in ("ctor=pos", "ctor=kw", "entry=call", "entry=forward", "move=None", "move=to", "move=cpu",
+                   "extra_enc=True", "extra_enc=False"):
+            if d["how"].get(hv, 0) == 0:
+                probs.append(f"calling convention {hv} never drawn")
+        if d["kw_defaults"] == 0:
+            probs.append("default n_bins / out_size never drawn")
         if d["materialize_failed"] > 0.2 * nf:
             probs.append(f"{d['materialize_failed']} of {nf} frames fail to materialize")
         nb = sum(d["batches"].values())
@@ -1032,6 +1124,9 @@ def sanity(cases, obss):
         for t in ("probe", "encoder"):
             if d["lazy_targets"].get(t, 0) == 0:
                 probs.append(f"lazy target {t} never drawn")
+        for u in set(USES):
+            if d["lazy_uses"].get(u, 0) == 0:
+                probs.append(f"guarded entry point {u} never used on a lazily configured module")
         rej = sum(1 for c, o in lz if o.get("ctor_raised") or any(st.get("raised") for st in o["trace"]))
         done = sum(1 for c, o in lz if o["trace"] and o["trace"][-1]["full"] and not o.get("ctor_raised"))
         if rej == 0:
